@@ -477,6 +477,7 @@ type Step struct {
 	Kind    int    `json:"kind,omitempty"` // data envelope kind
 	WaitMs  int    `json:"wait_ms,omitempty"`
 	Garbage int    `json:"garbage,omitempty"`
+	NoWait  bool   `json:"no_wait,omitempty"` // a pipelining client: the next step follows without waiting for the server's answer
 }
 
 var garbage = []string{"\x00\x01\x02", "{", "}{", "[1,2,3]", "null", "\"str\"", "{\"state\":", "{\"foo\":\"bar\"}", "{\"state\":\"bogus\"}", "{\"state\":5}", "GET / HTTP/1.1\r\n\r\n", "{\"id\":\"x\",\"content\":\"c\"}"}
@@ -506,9 +507,10 @@ func GenScript(t *simrt.Tape, maxLen int) []Step {
 				st.Comp = []string{"none", "gzip", "", "bogus"}[t.Draw(4)]
 				st.Enc = []string{"none", "tls", "", "bogus"}[t.Draw(4)]
 			}
+			st.NoWait = t.Draw(5) == 0
 			out = append(out, st)
 		case 4, 5:
-			out = append(out, Step{Op: "data", Kind: t.Draw(4)})
+			out = append(out, Step{Op: "data", Kind: t.Draw(4), NoWait: t.Draw(5) == 0})
 		case 6:
 			out = append(out, Step{Op: "garbage", Garbage: t.Draw(len(garbage))})
 		case 7:
@@ -725,6 +727,9 @@ func ScriptRun(w *World, p *RawPeer, steps []Step) {
 			return
 		case "wait":
 			time.Sleep(time.Duration(st.WaitMs) * time.Millisecond)
+			awaited = false
+		}
+		if st.NoWait {
 			awaited = false
 		}
 		if awaited {
